@@ -84,13 +84,19 @@ func (w *World) runDriver() (ok bool) {
 	case "late-polka":
 		w.driverLatePolka()
 	case "solo3":
-		w.driverSolo(3)
+		w.driverSolo(3, false)
 		w.ended = true
 	case "solo4":
-		w.driverSolo(4)
+		w.driverSolo(4, false)
 		w.ended = true
 	case "solo5":
-		w.driverSolo(5)
+		w.driverSolo(5, false)
+		w.ended = true
+	case "solo3x":
+		w.driverSolo(3, true)
+		w.ended = true
+	case "solo4x":
+		w.driverSolo(4, true)
 		w.ended = true
 	case "orders":
 		w.driverOrders()
@@ -400,7 +406,7 @@ func (w *World) driverMacro(rounds int) {
 //   is not locked on, delivered late (votes of that older round)}; precommits from the others are nil, so
 //   the round ends by timeout.
 
-func (w *World) driverSolo(rounds int) {
+func (w *World) driverSolo(rounds int, ext bool) {
 	if len(w.Correct) != 1 {
 		panic("solo driver needs exactly one correct validator")
 	}
@@ -441,23 +447,32 @@ func (w *World) driverSolo(rounds int) {
 		propAddr := rs.Validators.GetProposer().Address
 		proposer := w.valIndexOfAddr(propAddr)
 		nProp := 3 // none, fresh+data, fresh without data
+		nStale := 2
+		if ext {
+			// extended shapes: (3) an earlier fresh block proposed AGAIN with POLRound = its round, and the stale
+			// polka arriving only AFTER x has prevoted in this round (stale == 2)
+			nProp, nStale = 4, 3
+		}
 		if proposer == x {
 			nProp = 1
 		}
-		const nPrev, nStale = 4, 2
+		const nPrev = 4
 		costs := make([]int, nProp*nPrev*nStale)
 		ch := w.X.Choose(costs, fmt.Sprintf("solo-round-%d", r))
 		sp, pv, st := ch%nProp, (ch/nProp)%nPrev, (ch/(nProp*nPrev))%nStale
 		w.Deviations = append(w.Deviations, fmt.Sprintf("r%d:prop%d/prev%d/stale%d", r, sp, pv, st))
-		// stale polka first (it arrives at the beginning of the round)
-		if st == 1 {
-			for k := len(pool) - 1; k >= 0; k-- {
-				f := pool[k]
-				if f.round < round && (rs.LockedBlock == nil || !rs.LockedBlock.HashesTo(f.id.Hash)) {
-					polka(f.round, f.id)
-					break
-				}
+		// the most recent earlier fresh proposal x is not locked on: the subject of the stale polka and of a re-proposal
+		var older *fresh
+		for k := len(pool) - 1; k >= 0; k-- {
+			f := pool[k]
+			if f.round < round && (rs.LockedBlock == nil || !rs.LockedBlock.HashesTo(f.id.Hash)) {
+				older = &f
+				break
 			}
+		}
+		// stale polka first (it arrives at the beginning of the round)
+		if st == 1 && older != nil {
+			polka(older.round, older.id)
 		}
 		// proposal
 		var thisID *types.BlockID
@@ -466,6 +481,16 @@ func (w *World) driverSolo(rounds int) {
 				id := p.POLBlockID
 				thisID = &id
 				pool = append(pool, fresh{id, round})
+			}
+		} else if sp == 3 {
+			if older != nil {
+				if bi := w.blockByID(older.id); bi != nil {
+					for _, m := range w.byzProposal(proposer, bi, h, round, older.round, "solo-reproposal") {
+						w.Deliver(x, m)
+					}
+					id := bi.ID
+					thisID = &id
+				}
 			}
 		} else if sp > 0 {
 			bi := w.byzBlock(proposer, x, fmt.Sprintf("F%d", r))
@@ -483,6 +508,10 @@ func (w *World) driverSolo(rounds int) {
 			}
 		}
 		w.fireIf(x, stepPropose, round)
+		// the stale polka arriving only now: x has prevoted in this round (or is still waiting for the block)
+		if st == 2 && older != nil {
+			polka(older.round, older.id)
+		}
 		// prevotes of the others
 		switch pv {
 		case 0: // +2/3 any without a polka: two of the others' prevotes arrive, the third is delayed (a later
